@@ -368,6 +368,12 @@ def reject_strategy():
             case['field'] = draw(st.sampled_from([f[0] for f in fields]))
             case['extra'] = draw(st.integers(1, 3))
             case['conv'] = 'array'
+            if draw(st.booleans()):
+                # round 11: the odd array is SHORTER than the others, in particular a one-element array next to n > 1 objects
+                # (a flag that "describes the whole segment"): no broadcasting, it is an inconsistent length
+                while len(case['rows']) < 3:
+                    case['rows'] = case['rows'] + [draw(tuple_strategy(fields))]
+                case['short'] = draw(st.sampled_from([1, 1, 2]))
         elif mode == 'shape':
             # as many elements as the others but not the same shape: one field handed over as a column vector
             case['field'] = draw(st.sampled_from([f[0] for f in fields if f[0] not in ('run', 'plate')]))
@@ -402,7 +408,10 @@ def reject_body(case):
         args = {n: np.array([r[n] for r in rows], dtype=dtype_for([r[n] for r in rows])) for n, lo, hi, sh in fields}
         if mode == 'length':
             f = case['field']
-            args[f] = np.concatenate([args[f], args[f][:1].repeat(case['extra'])])
+            if case.get('short'):
+                args[f] = args[f][:case['short']].copy()
+            else:
+                args[f] = np.concatenate([args[f], args[f][:1].repeat(case['extra'])])
         if mode == 'shape':
             args[case['field']] = args[case['field']].reshape(-1, 1)
     try:
@@ -422,7 +431,7 @@ def reject_body(case):
 
 
 def reject_classify(case):
-    return ['%s:%s:%s' % (case['which'], case['mode'], case.get('field', '')), 'conv:' + case['conv']] + (['arrays:' + case.get('adt', 'i8')] if case['conv'] == 'array' else [])
+    return ['%s:%s:%s' % (case['which'], case['mode'] + ('-short' if case.get('short') else ''), case.get('field', '')), 'conv:' + case['conv']] + (['arrays:' + case.get('adt', 'i8')] if case['conv'] == 'array' else [])
 
 
 SUBCHECKS = [
